@@ -91,3 +91,27 @@ Theorem C08_mixed : forall norm rh l,
   VList (map (fun kv => VList [VStr (fst kv); show_vals (snd kv)]) (dol_spec norm rh l)).
 Proof. exact mixed_spec. Qed.
 Print Assumptions C08_mixed.
+
+(* ---- GetDict (request.GET): every reachable state keeps QUERY_STRING (as a pair list; its url-encoding is C09's
+   subject) and the rollback snapshot equal to the item list; an operation that raises — a MultiDict KeyError /
+   IndexError or a write refused because the value cannot be encoded — changes neither the items nor QUERY_STRING;
+   a successful mutation is written back at once. *)
+Require Import Webob.Model.C08_GetDict Webob.Proofs.C08_getdict.
+Theorem C08_getdict_tracked : forall ops g, gd_inv g -> gd_inv (fold_left (fun g o => fst (gstep g o)) ops g).
+Proof. exact getdict_tracked. Qed.
+Print Assumptions C08_getdict_tracked.
+
+Theorem C08_getdict_refused_write_changes_nothing : forall g o,
+  gd_inv g -> is_err (snd (gstep g o)) = true ->
+  g_items (fst (gstep g o)) = g_items g /\ g_env (fst (gstep g o)) = g_env g.
+Proof. exact getdict_refused_write_changes_nothing. Qed.
+Print Assumptions C08_getdict_refused_write_changes_nothing.
+
+Theorem C08_getdict_success_written : forall g o,
+  o <> OCopy -> is_err (snd (step_i (fun k => k) false md_get_other (g_items g) o)) = false ->
+  g_env (fst (gstep g (GOk o))) = fst (step_i (fun k => k) false md_get_other (g_items g) o).
+Proof. exact getdict_success_written. Qed.
+Print Assumptions C08_getdict_success_written.
+
+Example C08_getdict_inv_nonvacuous : gd_inv (mkGd [([97], [49])] [([97], [49])] [([97], [49])])%N.
+Proof. exact getdict_inv_example. Qed.
